@@ -224,7 +224,23 @@ def _alias_source(val, al):
             if b in al and not al[b].startswith("shallowof:"):
                 return al[b]
         return None
-    if isinstance(val, (ast.List, ast.Tuple, ast.Dict, ast.Set)):
+    if isinstance(val, (ast.List, ast.Tuple, ast.Set)):
+        for e in val.elts:
+            b = base_name(e) if isinstance(
+                e, (ast.Name, ast.Attribute, ast.Subscript)) else None
+            if b in al and isinstance(e, ast.Name):
+                return "holds:" + al[b].split(":")[-1]
+        return None
+    if isinstance(val, ast.Dict):
+        for e in val.values:
+            if isinstance(e, ast.Name) and e.id in al:
+                return "holds:" + al[e.id].split(":")[-1]
+        return None
+    if isinstance(val, ast.BinOp) and isinstance(val.op, ast.Add):
+        for side in (val.left, val.right):
+            if isinstance(side, ast.Name) and side.id in al and \
+                    al[side.id].startswith("holds:"):
+                return al[side.id]
         return None
     if isinstance(val, ast.IfExp):
         return _alias_source(val.body, al) or _alias_source(val.orelse, al)
@@ -256,7 +272,8 @@ def mutations(func, al):
         elif isinstance(n, ast.AugAssign):
             t = n.target
             if isinstance(t, ast.Name):
-                if t.id in al and not al[t.id].startswith("shallowof:"):
+                if t.id in al and not al[t.id].startswith(("shallowof:",
+                                                           "holds:")):
                     # x += ... on an aliased ndarray/list mutates in place
                     out.append((n, al[t.id], f"augmented assignment "
                                 f"{norm(n)}"))
@@ -270,7 +287,7 @@ def mutations(func, al):
             b = base_name(n.func.value)
             if b in al:
                 src = al[b]
-                if src.startswith("shallowof:") and isinstance(
+                if src.startswith(("shallowof:", "holds:")) and isinstance(
                         n.func.value, ast.Name):
                     continue  # mutating the fresh container itself
                 out.append((n, src.split(":")[-1],
@@ -284,7 +301,8 @@ def _store(t, al, aug=None):
         b = base_name(t)
         if b in al:
             src = al[b]
-            if src.startswith("shallowof:") and isinstance(t.value, ast.Name):
+            if src.startswith(("shallowof:", "holds:")) and isinstance(
+                    t.value, ast.Name):
                 return out  # store into the fresh container
             out.append((aug or t, src.split(":")[-1],
                         f"store to {norm(t)}"))
